@@ -19,6 +19,10 @@ var NewCond = sync.NewCond
 
 func OnceFunc(f func()) func() { return sync.OnceFunc(f) }
 
+func OnceValue[T any](f func() T) func() T { return sync.OnceValue(f) }
+
+func OnceValues[T1, T2 any](f func() (T1, T2)) func() (T1, T2) { return sync.OnceValues(f) }
+
 type Mutex struct {
 	real   sync.Mutex
 	locked bool
